@@ -8,6 +8,8 @@ CONSTANTS
   Mode = "gen"
   H = 1
   N = 4
+  PerRecordSweep = FALSE
+  SnapshotSweep = FALSE
   Target = "conn"
 SPECIFICATION Spec
 INVARIANTS Emit
